@@ -1,0 +1,24 @@
+//go:build verif
+
+package ina
+
+// C10 safety sweep (govc `sweep`): index / slice expressions on text the remote server
+// controls must not panic. Comment-only file.
+
+//@ func extractJWPlayerVersion
+//@   property C10
+//@   sweep idx slice
+//@   replay c10_inaVersion
+//@ func getJWPlayerURLs
+//@   property C10
+//@   opaque
+//@   sweep idx slice div
+//@   loop range invariant [matches] (arrof(matches) == 0 || !samearray(matches, URLs)) && forall(j, 0, len(matches), len(matches[j]) >= regexp.minMatchLen(playerRegex)) && regexp.minMatchLen(playerRegex) >= 2
+//@ func ExtractPlayerURLs
+//@   property C10
+//@   opaque
+//@   sweep idx slice div
+//@ func ExtractPlayerURLs$1
+//@   property C10
+//@   opaque
+//@   sweep idx slice div
